@@ -37,7 +37,13 @@ RULE = ("for every class with a hand-written __eq__/__hash__ (52 constructors in
         "(container-level vs member-level add, single elements vs whole network, shuffled element order, an extra element "
         "added and removed again through the scenario / its lanelet network in all four combinations; "
         "state / signal state filled attribute by attribute); int instead of integral floats and numpy scalars instead of "
-        "Python numbers; ids from 0; magnitudes up to 1e6; the table of all 377 setters and public methods of the 52 classes "
+        "Python numbers; MEMORY LAYOUT of every array-valued attribute at any depth (harness/c12_specs.py with_layout / relayout / "
+        "layout_alias): the same entries column-major (np.asfortranarray), as the transposed view np.array([xs, ys]).T, as "
+        "every-second-row / inner-column / negative-stride views into a larger buffer and as big-endian doubles, on one side "
+        "and on both sides differently (must be equal with equal hashes), the object after the identity motion "
+        "translate_rotate((0, 0), 0) / rotate_translate_local (same entries, arrays re-allocated by the library; also starting "
+        "from a re-laid twin), and pairs whose (n, 2) arrays hold different points in the same bytes (row-major a vs column-"
+        "major a.reshape(2, n).T and the converse; must be unequal); ids from 0; magnitudes up to 1e6; the table of all 377 setters and public methods of the 52 classes "
         "(harness/c12_dimensions.json) is compared with the working tree on every run (unknown entry => exit 2); non-trivial = every case (>= 1 perturbed pair); distinct = distinct "
         "canonical JSON of the instance description")
 ASSUMPTIONS = [
@@ -60,6 +66,10 @@ ASSUMPTIONS = [
     "(Lanelet.distance, *_obstacles_on_lanelet, obstacle_role, Rectangle.vertices, wheelbase_lengths) are outside the quantifier; "
     "container edits that take objects are exercised as construction routes of Scenario / LaneletNetwork (add through either "
     "level, add + remove of an unreferenced extra element); what removal does to references is C09/C10",
+    "memory layout: what an array-valued attribute IS for the property are its entries a[i][j] as the public getter shows them "
+    "(ndarray.tolist()); strides, buffer ownership and byte order are not attribute values, so layout twins are inside "
+    "'identical attribute values'; the model receives the entries only, hence predicts equal / unequal from them alone; "
+    "float32 / integer dtypes are not layouts (numeric-int / numeric-np cover integral numbers)",
     "mutable default arguments shared between instances (TrafficSignElement.additional_values=[], Scenario.scenario_id, "
     "LaneletNetwork.information) are never edited in place by the generator: an in-place edit of one changes every instance "
     "built with the default, which keeps them equal (no C12 verdict)",
@@ -81,7 +91,11 @@ REQUIRED_BUCKETS = ["cls:" + c for c in S.CLASSES] + ["pair:self", "pair:deepcop
                               "call", "pickle", "copy", "replace", "alt-entry", "numeric-int", "numeric-np",
                               "identical-getter-values", "route:member-level", "route:single-objects", "route:shuffled",
                               "route:cleanup-only")] + \
-    ["route:identical-getter-values:" + k for k in ("member-level", "single-objects", "shuffled", "add-remove")]
+    ["route:identical-getter-values:" + k for k in ("member-level", "single-objects", "shuffled", "add-remove")] + \
+    ["history:" + k for k in ("layout", "layout-both", "identity-motion", "layout-alias", "layout-alias:values-differ",
+                              "identical-getter-values:layout", "identical-getter-values:layout-both",
+                              "identical-getter-values:identity-motion")] + \
+    ["layout:2d:" + k for k in S.LAYOUTS_2D] + ["layout:1d:" + k for k in S.LAYOUTS_1D]
 WORKERS = {"quick": 4, "thorough": 8}
 
 QUICK_PER_CLASS = 48
@@ -378,14 +392,24 @@ def run_histories(ctx, cls, dx, x, hs=None):
             continue
         sy, sw = S.encode(y, True), S.encode(w, True)
         ctx.tag("history:" + h["hkind"])
+        for t in h.get("tags", ()):
+            ctx.tag(t)
         sub = {"cls": cls, "x": dx, "kind": "history", "h": h, "attr": h.get("attr")}
         ob = observe(w, y)
         same = sy == sw
+        # pairs built to differ in the entries of one array (same bytes in memory, other points): unequal is demanded
+        # whenever the public getters do show different values
+        differs = bool(h.get("differs")) and not same and _none_is_empty(sy) != _none_is_empty(sw)
+        if differs:
+            ctx.tag("history:" + h["hkind"] + ":values-differ")
         if same:
             ctx.tag("history:identical-getter-values")
+            if h["hkind"] in ("layout", "layout-both", "identity-motion"):
+                ctx.tag("history:identical-getter-values:" + h["hkind"])
             if h["hkind"].startswith("route:"):
                 ctx.tag("route:identical-getter-values:" + ("add-remove" if "add-remove" in h["hkind"] else h["hkind"][6:]))
-        oracle_pair(ctx, cls, sub, None, w, y, ob, "history/" + h["hkind"], h.get("attr"), "equal" if same else None, case=sub)
+        oracle_pair(ctx, cls, sub, None, w, y, ob, "history/" + h["hkind"], h.get("attr"),
+                    "equal" if same else ("unequal" if differs else None), case=sub)
         pairs.append((ew[1], ey[1]))
         meta.append((sub, ob))
         if same and part != "x" and "desc" in part and h["hkind"] in ("set-change", "inplace-change", "nested-set") \
